@@ -38,6 +38,10 @@ class Walker:
         h = t[0]
         if h == "const":
             return t[1] if isinstance(t[1], int) else None
+        if h == "discr" and len(t) == 2 and isinstance(t[1], tuple) and t[1] and t[1][0] == "agg" and "::" in t[1][1]:
+            # the discriminant of a value built as a known variant (a private enum computed by one match and taken apart by
+            # the next)
+            return t[1][1].rsplit("::", 1)[-1]
         if h == "bin":
             a, b = self.eval(t[2]), self.eval(t[3])
             if a is None or b is None:
@@ -119,6 +123,18 @@ class Walker:
                 v = self.eval_terms({("discr", s) for s in ve["scrutinee"]})
             except Undecided:
                 v = None
+            if not isinstance(v, str) and path is not None:
+                # the scrutinee as it was assigned along this path
+                po = Origins(self.b, self.o.facts, only_blocks=set(path))
+                ve2 = Branches(self.b, po).variant_edges(blk)
+                if ve2 is not None and ve2["scrutinee"]:
+                    saved, self.o = self.o, po
+                    try:
+                        v = self.eval_terms({("discr", s) for s in ve2["scrutinee"]})
+                    except Undecided:
+                        v = None
+                    finally:
+                        self.o = saved
             if isinstance(v, str):
                 return [ve["edges"].get(v, ve["otherwise"])]
             return self.b.normal_succs(blk)
